@@ -546,7 +546,7 @@ pub fn cmd_run_scenario(args: &[String]) -> i32 {
     let sites: Vec<String> = SITE_NAMES
         .iter()
         .enumerate()
-        .filter(|(i, _)| ev.res.site_counts[*i] > 0)
+        .filter(|(i, _)| ev.res.site_counts.get(*i).copied().unwrap_or(0) > 0)
         .map(|(i, n)| format!("{}={}", n, ev.res.site_counts[i]))
         .collect();
     println!("C {}", sites.join(" "));
